@@ -52,6 +52,64 @@ CLAIMED = {
             "IEEE-754 rounding outside the exact-dyadic domain (2^-30 relative tolerance there)."),
 }
 
+
+def theorem_names(pid):
+    """property theorems of PyndlProps/<pid>.lean: every `theorem` that is neither marked "(definitional)" in its
+    docstring nor placed under the heading "lemmas (not property theorems)" """
+    import re
+    src = open(os.path.join(HERE, 'lean', 'PyndlProps', pid + '.lean')).read()
+    m = re.search(r'^/-! #+ lemmas \(not property theorems\)', src, re.M)
+    main_part, lemma_part = (src[:m.start()], src[m.start():]) if m else (src, '')
+    definitional = set()
+    for d in re.finditer(r'/--(.*?)-/\s*\n(?:@\[[^\]]*\]\s*\n)?theorem\s+([A-Za-z0-9_\'.]+)', src, re.S):
+        if 'definitional' in d.group(1):
+            definitional.add(d.group(2))
+    names = [n for n in re.findall(r'^theorem\s+([A-Za-z0-9_\'.]+)', main_part, re.M) if n not in definitional]
+    others = sorted(set(re.findall(r'^theorem\s+([A-Za-z0-9_\'.]+)', lemma_part, re.M)) | definitional)
+    return names, others
+
+
+NOTE_OVERRIDE = {
+    'C01': "Hypotheses of the end-to-end theorems: at least one event (ndlCall raises IOError on a zero-event file: proved), CfgOK (2 <= events_per_temporary_file < 2^32, 1 <= n_outcomes_per_job, openmp: outcomes + chunk < 2^32; the error directions outside it are proved and run: stream ndl_chunk_args), Fits32, policy accepts. Label / id order independence is a theorem (ndl_label_order_irrelevant); n_jobs is absent from the model (counting order is covered by it). IEEE-754 rounding (theorems over commutative rings; exact comparison only inside the exact-dyadic domain); malloc/fread success in the kernels.",
+    'C02': "partial: micro-step atomicity (an access-level SC interleaving of row-disjoint kernel calls reduces to a micro-step interleaving) is a NAMED assumption, not a theorem; OpenMP's actual scheduling is not observable (theorem under DRF=>SC + result comparison); threading.Lock is a mutex; fair scheduling of started threads. The protocol-to-schedule link is proved (protocol_run_interleaves: every complete non-failing run of the refined queue protocol is an interleaving of the part programs, each exactly once).",
+    'C05': "Learner-level theorems: a repeated name under the default policy, a chunk size >= 2^32, a zero-event file, a missing vector make ndlCall / whModel return the error (ndl_dup_raises, ndl_overflow_raises, ndl_empty_raises, wh_*_raises), and the abstract failing-job oracle of the submit loop is instantiated from the event file (failingJob_iff, conversion_dup_raises). partial: truncated gzip, storage exhaustion and unusable hyper-parameter types have no model value (test only: fault enumeration); wall-clock boundedness is the harness deadline (theorems bound transitions); multiprocessing.Pool re-raises worker exceptions in the caller; every submitted job eventually completes.",
+    'C06': "Truncated chunk files are OUTSIDE the property and the theorems (kernel_reads_what_py_reads / kernel_rejects_what_py_rejects are about complete chunks and bad headers; the model's `.truncated` is a marker, the real readers zero-fill / ignore fread's return value); the exception class is not in the model. partial: C memory safety beyond the capacity invariant; little-endian host; fopen failure; n+chunk < 2^32 (row partition wrap needs >= 2^31 rows, not exercisable here).",
+    'C07': "gzip and the UTF-8 codec are identity; Python's universal-newline layer is modelled (LF, CR, CRLF); the integer literal parser is a PARAMETER of the model (theorems for every intOf; the instance pyInt mirrors int() on ASCII, a Python-supplied table covers non-ASCII digits); 1 <= step (step = 0 raises: proved and run); container / path-vs-Path / generator dispatch is not in the model (forms_agree is about the parsed events; the forms themselves are test only).",
+    'C09': "str.lower and the white-space predicate are arbitrary functions in the theorems (the driver instance is a Python-supplied table per input); set expressions are literal characters and ranges (SetExprPlain), others raise re.error (modelled); a failing call after the event file was opened leaves header + events written so far (create_frame, late_failure_prefix; stream failing_call); the number of lines the text layer yields before a UnicodeDecodeError is Python-supplied.",
+    'C10': "n_jobs is absent from the model: independence of n_jobs is by construction and rests on the ordering guarantee of multiprocessing.Pool.imap (trusted; sampled for n_jobs 1..8); rule arguments are the documented sequences / mappings (one-shot iterators are outside the documentation); one malformed line per file (a rare CPython Pool.terminate deadlock with many simultaneous worker exceptions is outside the property, see DESIGN §4); a failing call leaves a partial output file (noted, the C10 model has no file system).",
+    'C11': "str.split()/strip()/lower() results are Python-supplied per input; Pool.starmap returns results in submission order; 1 <= n_jobs (0 raises: proved and run); integer literal parser as in C07.",
+    'C12': "Label lists duplicate-free (w.cues.Nodup, w.outcomes.Nodup: the model takes the first index of a repeated label, the code the last); n_jobs and the shared-memory path are absent from the model (multi = single process is a list homomorphism, test by layouts x n_jobs); numpy fancy indexing/sum trusted; exact comparison inside the dyadic domain.",
+    'C15': "partial: ndl.ndl composed from scratch with constant alpha within Fits32 / CfgOK and at least one event surviving the filter (otherwise IOError: pipeline_ndl_empty_raises); wh learners not composed; matrix-path activations for the training events only; gzip/UTF-8 identity; the text the creator writes is taken to be renderFile of the created events (header and line-format literals extracted; with remove_duplicates=True the code writes in set order: pipeline_order_irrelevant); Pool.imap order trusted; F14 (labels lose a trailing U+0000) is a known finding; trusted items of C01, C07, C09, C10, C11, C12 apply.",
+    'C16': "Truthfulness is proved for ndl.ndl chains (ndl_chain_reports: number_events entry i is the count the learner model returns, path / method / parameters those of call i) and the append-one-entry rule for chains of any length and any starting attrs; dict_ndl / wh chains: append rule only. partial: netCDF4/HDF5/xarray serialisation cannot be modelled — the netCDF clause is decided only by the differential run (values bit-exact, coords, attrs, continued learning); supplied strings contain no '|' and no trailing space; Python str() of floats/tuples is Python-supplied.",
+    'C17': "partial: that the real bodies only write below their TemporaryDirectory (OnlyBelow) is what the differential run observes, not a theorem about the code; under it: paths and file CONTENTS unchanged (fs_clean_contents, inputs_unchanged), spool and chunk directory as siblings as in the code; shutil.rmtree succeeds and Pool.terminate leaves no writer (assumed).",
+    'C18': "correlation_eq_pearson composes the model run with Pearson's r over the reals (2 <= rows, no constant / non-finite column); Cython prange variables are thread-private (assumed). The square root is irrational: value comparison |r^2 - nom^2/den^2| <= 2^-40 in Fraction arithmetic; rounding in np.mean/np.std; generators stay inside |x| <= 9 resp. N(0,1) except the extreme_range stream of F12.",
+    'C19': "The time arithmetic is a parameter of the model; the driver evaluates it in IEEE doubles like the code (Lean Float = C double, trusted), the exact-time theorems (corpus_eq, not_found_listed, corpus_error_prefix) carry TimesExact (pause at least one frame from the break duration or whole seconds; literal domain) and the NAMED assumption FloatCompareAgrees (proved by kernel evaluation for every concrete document in the file, incl. the boundary counter-example); structural theorems hold for every arithmetic. xml.etree, gzip and os.walk(followlinks=True) are trusted (the harness writes real gzip XML from the JSON tree).",
+    'C20': "sample_size is an Int (negative: every retained word; 0: ZeroDivisionError; float sizes only through the *_any_step theorems); band_size needs sample_size >= 1 and positive retained frequencies; load_save needs CR/TAB/LF-free distinct keys and an LF-free header (each shown necessary); 'leaves its argument unchanged' is definitional in the model (test only); float accumulator vs rationals outside the dyadic stream (predicates only there).",
+}
+
+TIE = {
+    'C01': "dict_ndl / ndl threading / ndl openmp on generated event files (dense, late names, medium and shared vocabularies, > 1024 ids per event on either or both sides, per-cue alpha as defaultdict or dict, every input form, zero events) vs the Lean driver; exact rational comparison inside the exact-dyadic domain.",
+    'C02': "real runs over n_jobs x chunk x method x PYTHONHASHSEED, exactly-once probes (also over two chunk files with 7..64 threads), continuation with extra outcome rows, logged work-queue traces replayed through the Lean transition system, partition bounds vs the model.",
+    'C03': "chains of 2-4 real calls over every split, learner per piece from {dict_ndl (dict / DataArray / in-place), ndl threading, ndl openmp}, every input form, repeats under all policies, re-wrapped DataArrays and netCDF round trips between pieces, wh chains in three flavours; final weights vs the model's single pass; snapshots of every object handed in.",
+    'C04': "create_binary_event_files on n x per x n_jobs with injected per-job delays, frequency columns, stale chunk files, throttle boundary; ndl.ndl across chunk sizes incl. >= 11 chunk files and the limits 0 / 2^32-1 / 2^32 of both chunk-size arguments, vs makeChunks / simulate / ndlCall.",
+    'C05': "fault enumeration {repeated cue, malformed lines (1/4 columns, empty line, non-integer count), truncated gzip, missing vector, byte budgets (RLIMIT_FSIZE in the conversion workers), hyper-parameter and betas faults, failing generators} x position x 8 learners with per-task n_jobs / chunk sizes; the same task without the fault must return; violations shrunk.",
+    'C06': "write_events / read_binary_file byte for byte vs encodeChunk / decodeChunkPy (small exhaustive + wide + window limits), all five kernel entry points on model-written chunks (incl. > 1024 ids per event, > 2^32-cell matrices and tables, empty file list), bad headers at every position.",
+    'C07': "event lists over a hostile Unicode alphabet x containers (lists, strings, tuples, iterators, DataFrames in several shapes) x gzip/plain x compatible x columns= x delimiter=, files character by character vs renderFileWith; frequency cells in every int() spelling, start/step incl. 0; six input forms of the learners from scratch and continuing from weights, with chunking and both methods.",
+    'C08': "wh.wh in three flavours (openmp; r2b also with beta1 != beta2), numpy and dict_wh in every shape their signatures allow, vs whModel: tables 1-23 dims with shuffled rows, chunk sizes tied to each dimension, >= 11 chunk files, missing vectors, outcome-less events, chains, given weights with foreign / permuted / repeated labels.",
+    'C09': "generated corpora x all option combinations (incl. verbose) vs createEvents; failing calls (bad set expression, corpus that stops being UTF-8, raising callable) vs what the model says is left behind; existing event file.",
+    'C10': "filter_event_file on generated files x rule kinds x n_jobs 1..8 x chunk sizes x argument containers (list, tuple, set, frozenset, key view; dict / OrderedDict / defaultdict) vs the model; constructor table; idempotence; verbose.",
+    'C11': "event and corpus files x n_jobs 0..32 x lower_case vs the driver's direct and strided counts; frequency cells in other int() spellings.",
+    'C12': "activation on DataArray (n_jobs 1..6, several memory layouts) and dict-of-dicts weights, events as list / iterator / event-file path (with frequency column), unknown cues, all policies, vs the model; one further learning step vs the activation.",
+    'C13': "every law run as a metamorphic relation between 2-3 real runs (all learners, repeats under keep/dedup, medium vocabularies, initial weights in several layouts, dict_ndl handed a DataArray) and every run also vs the model.",
+    'C14': "wh.wh in all flavours and methods (openmp, numpy, dict_wh) with shuffled one-hot tables and unused dimensions vs ndl.ndl(alpha=1, betas=(eta,eta), lambda=1) on the same file, incl. >= 11 chunk files; both also vs their models.",
+    'C15': "two pipeline heads (create_event_file -> filter_event_file; events_to_file in five containers x gzip/plain x compatible) -> reader -> counts -> learner -> activation, each stage model fed the implementation's previous artefact, plus the model-only chain end to end.",
+    'C16': "chains of 1-4 calls of ndl / dict_ndl / wh flavours with save/load at random positions, pathlib.Path arguments, frequency columns and several chunk files; every attribute entry vs the model, netCDF round trip bit-exact.",
+    'C17': "every learner x path/generator/list x temporary_directory given/defaulted x success, every fault of C05 and learning-stage failures (bad method, n_outcomes_per_job=0, malformed weights): directory listings and sha256 of the inputs before/after.",
+    'C18': "correlation() through the public function, the Python shim and the kernel on matrices in seven memory layouts x n_jobs x chunk sizes vs the model ((r^2, sign) exactly in rationals); degenerate, non-finite and small-spread columns.",
+    'C19': "generated subtitle trees (nested directories, links, dangling links, non-gzip files, bad tags, pauses incl. exactly the break duration between fractional times) x n_threads vs the model evaluated in IEEE doubles; corpus and .not_found files byte for byte.",
+    'C20': "populations 0..2000 with the shuffle replaced by a harness-chosen permutation, cutoffs, sample sizes incl. 0 and negative, exact comparison in the dyadic stream and predicates elsewhere; counters with special keys through save/load.",
+}
+
 DESIGN_REF = {k: 'DESIGN.md §6 ' + k for k in ['C%02d' % i for i in range(1, 21)]}
 
 
@@ -63,7 +121,12 @@ def main():
         pid = p['id']
         if pid in CLAIMED and os.path.exists(os.path.join(HERE, 'harness', 'run_%s.py' % pid)) \
                 and os.path.exists(os.path.join(HERE, 'lean', 'PyndlProps', pid + '.lean')):
-            text, note = CLAIMED[pid]
+            _old_text, note = CLAIMED[pid]
+            note = NOTE_OVERRIDE.get(pid, note)
+            names, others = theorem_names(pid)
+            text = '%s. Correspondence run (harness/run_%s.py): %s' % (', '.join(names), pid, TIE[pid])
+            if others:
+                text += ' Not counted as property theorems (definitional / lemmas): %s.' % ', '.join(others)
             checks.append({
                 'property_id': pid,
                 'quick_cmd': './check %s --tier quick' % pid,
